@@ -773,6 +773,9 @@ def run(tier, only=None):
     k5(rep)
     k9(rep)
     k10(rep)
+    from . import variadic
+    _gen = set(["genc.c", "ccode.c"] + [u for u in common.compiler_units() if u.startswith(("java/", "of_")) or u in ("usedef.c", "flog.c", "dflow.c", "optfoam.c", "inlutil.c", "loops.c")])
+    variadic.report(rep, "K11", [u for u in common.compiler_units() if u not in _gen], floor=1700, what="in the front end, FOAM generator and support units")
     # ---- K8 ---------------------------------------------------------------
     n8 = 0
     for u in sorted(dig):
